@@ -46,6 +46,9 @@ import (
 //	                                          header hid (on prev) commits to the textbook root of `committed`;
 //	                                          the body delivered with it is the listed transactions;
 //	                                          lie=1 wraps the block in a type whose IsMerkleRootValid says true
+//	["reorg", hid, prev, [committed], [body]] header hid on prev (any held header) is announced through the real
+//	                                          handlers.HeadersHandler - a competing header makes it revert the chain to
+//	                                          prev - then the block is supplied (state.AddBlock / NextBlock) and processed
 //	["fault", [t...]]                         from now on the output fetcher fails when asked for the outputs spent by
 //	                                          one of these transactions (replaces the previous set; [] = no fault):
 //	                                          ProcessBlock then aborts in its second pass, after the first pass has
@@ -233,7 +236,7 @@ func runMerkle(c *Case) ([]Obs, any) {
 					return finish(ERR)
 				}
 				return finish(OK)
-			case "block":
+			case "block", "reorg":
 				hid, prev := op.Int(0), op.Int(1)
 				committed := op.Ints(2)
 				var chashes []bitcoin.Hash32
@@ -270,6 +273,31 @@ func runMerkle(c *Case) ([]Obs, any) {
 						panic(harnessErr("decode block: " + err.Error()))
 					}
 					blk = pb
+				}
+				if op.Name == "reorg" {
+					// the header is announced through the REAL headers handler (which reverts the chain, the
+					// per-height tx id files and the in-sync flag when the header competes with processed
+					// blocks); the block is then supplied and processed like Node.processBlocks does.
+					// state.lastHash = the tip: what the normal flow has when no block request is pending.
+					nstate := f.node.VerifState()
+					nstate.SetLastHash(*f.node.VerifBlocks().LastHash())
+					msg := wire.NewMsgHeaders()
+					h := *hdr
+					msg.AddBlockHeader(&h)
+					if _, err := f.node.VerifHandlers()[wire.CmdHeaders].Handle(ctx, msg); err != nil {
+						return finish(ERR)
+					}
+					if !nstate.AddBlock(hdr.BlockHash(), blk) {
+						return finish(ERR) // the handler did not ask for this block
+					}
+					next := nstate.NextBlock()
+					if next == nil {
+						return finish(ERR)
+					}
+					if err := f.node.ProcessBlock(ctx, next); err != nil {
+						return finish(ERR)
+					}
+					return finish(OK)
 				}
 				if op.Int(4) != 0 {
 					blk = lyingBlock{blk}
